@@ -131,7 +131,12 @@ C[PP + '_reset_sequence'] = dict(params=dict(self='Parser'), returns='None', mut
 C[PP + 'parse'] = dict(
     params=dict(self='Parser'), returns='List[Tuple[ParsedChain,Optional[bool]]]', mutates=['self'],
     requires=[('inv', 'inv(self)')], raises={'ValueError': None},
-    ensures=[('whole-text-consumed', 'self_final.position >= self_final.length'), ('text-kept', 'text_kept(self, self_final)')],
-    invariants={0: [('inv', 'inv(self)'), ('text', 'text_kept(old(self), self)')]},
+    ensures=[('whole-text-consumed', 'self_final.position >= self_final.length'), ('text-kept', 'text_kept(self, self_final)'),
+             # C01 (chain links): every chain but the last is yielded with a link flag (a separator was read after it)
+             ('every-chain-but-the-last-has-a-link', 'forall(lambda k: implies(0 <= k and k < len(result) - 1, result[k][1] is not None))')],
+    invariants={0: [('inv', 'inv(self)'), ('text', 'text_kept(old(self), self)'),
+                    ('chains-so-far-have-a-link-if-text-remains',
+                     'forall(lambda k: implies(0 <= k and k < len(yields) - 1, yields[k][1] is not None)) and '
+                     'implies(len(yields) > 0 and self.position < self.length, yields[len(yields) - 1][1] is not None)')]},
     decreases={0: 'self.length - self.position'},
 )
